@@ -4,7 +4,7 @@
    earlier history.  The samplers of /repo are tied to this generic machine by the correspondence harness
    (bit-for-bit differential runs + the trace instance) and by the footprint facts regenerated from the
    source on every run (coq/gen/Gen_C14.v), which instantiate C14_resume_footprint / C14_reinitialize. *)
-From CV Require Import Base.Tac Base.Cmp Model.C19_Stats Model.C14_Chain Model.C14_Burn Proofs.C14_Chain Proofs.C14_Burn.
+From CV Require Import Base.Tac Base.Cmp Model.C19_Stats Model.C14_Chain Model.C14_Burn Model.C14_Out Proofs.C14_Chain Proofs.C14_Burn Proofs.C14_Out.
 From Coq Require String.
 Import String.StringSyntax.
 
@@ -78,6 +78,24 @@ Theorem C14_exp_burnin : forall (c : Cfg) (ti : nat) (s : sampler) (rsw rs : lis
   length (map point (states c (st w) rs)) = length rs.
 Proof. intros c ti s rsw rs. exact (exp_burnin Cfg St Rnd Pt Acc step tune point c ti s rsw rs). Qed.
 
+(* what get_samples() hands out is a value.  In the model this is immediate (later operations leave every earlier output
+   what it was; output j is the chain recorded after the first j+1 operations); its content is carried by the
+   correspondence, which re-reads every object handed out earlier after every later operation and compares with
+   `outputs` (check_outputs / check_gibbs_outputs) *)
+Theorem C14_outputs_stable : forall (c : Cfg) (s : sampler) (ops1 ops2 : list (op Rnd)),
+  firstn (length ops1) (outputs Cfg St Rnd Pt Acc step tune point c s (ops1 ++ ops2)) =
+  outputs Cfg St Rnd Pt Acc step tune point c s ops1 /\
+  forall j d, (j < length ops1)%nat ->
+    nth j (outputs Cfg St Rnd Pt Acc step tune point c s ops1) d = smp (run_ops c s (firstn (S j) ops1)).
+Proof.
+  intros c s ops1 ops2. split; [apply outputs_stable | intros; apply outputs_nth; assumption].
+Qed.
+
+(* a chain handed out earlier is a prefix of every chain the same sampler hands out later (sample / warmup calls only) *)
+Theorem C14_outputs_prefix : forall (c : Cfg) (s : sampler) (ops1 ops2 : list (op Rnd)),
+  exists tail, smp (run_ops c (s) (ops1 ++ ops2)) = smp (run_ops c s ops1) ++ tail /\ length tail = ops_len Rnd ops2.
+Proof. intros. apply outputs_prefix. Qed.
+
 (* checkpoint / resume.  get_state = proj, set_state = inject.  FP: a transition depends on the sampler only
    through the saved keys (configuration equal); current_point is a saved key.  Then a state saved at ANY point and
    loaded into ANY initialised sampler `fresh` continues with exactly the transitions of the uninterrupted run:
@@ -145,6 +163,10 @@ Theorem C14_gibbs_continue : forall (c : Cfg) (init : St) (warm stored : list St
   gibbs_sample Cfg St Rnd Acc step c init warm stored (rs1 ++ rs2) /\
   length (gibbs_sample Cfg St Rnd Acc step c init warm stored rs1) = (length stored + length rs1)%nat.
 Proof. intros. split; [apply gibbs_continue | apply gibbs_length]. Qed.
+(* both Gibbs samplers: the chain returned by a call is a prefix of the chain returned by the next call *)
+Theorem C14_gibbs_outputs_prefix : forall (c : Cfg) (init : St) (warm stored : list St) (rs : list Rnd),
+  exists tail, gibbs_sample Cfg St Rnd Acc step c init warm stored rs = stored ++ tail /\ length tail = length rs.
+Proof. intros. apply gibbs_prefix. Qed.
 End Generic.
 Print Assumptions C14_split.
 Print Assumptions C14_length.
@@ -152,11 +174,14 @@ Print Assumptions C14_order.
 Print Assumptions C14_append_only.
 Print Assumptions C14_callback_once.
 Print Assumptions C14_exp_burnin.
+Print Assumptions C14_outputs_stable.
+Print Assumptions C14_outputs_prefix.
 Print Assumptions C14_resume.
 Print Assumptions C14_checkpoint_any_position.
 Print Assumptions C14_burnin_slice.
 Print Assumptions C14_legacy_callback.
 Print Assumptions C14_gibbs_continue.
+Print Assumptions C14_gibbs_outputs_prefix.
 
 (* REFUTED for loops that pass a view of the stored chain to a helper that mutates it (legacy CWMH):
    what such a loop records is the chain shifted by one -- entry i is state min(i+1, Ns-1) -- so the chain does not
@@ -230,8 +255,9 @@ Proof. exact reinit_frame_from_facts. Qed.
 Print Assumptions C14_reinitialize_frame.
 
 (* REFUTED outside the guard reinit_ok: a declared state key that initialize never re-binds is left at the cleared
-   value.  This is exactly NUTS.max_depth (in _STATE_KEYS, bound only in __init__): reinitialize turns a constructed
-   max_depth into the default -- signature NUTS.reinitialize|state-key-not-rebound:max_depth in known_findings.tsv *)
+   value.  This was exactly NUTS.max_depth (in _STATE_KEYS, bound only in __init__): reinitialize turned a constructed
+   max_depth into the default -- signature NUTS.reinitialize|state-key-not-rebound:max_depth, repaired in /repo by the
+   proposed fix (reinitialize now re-binds it, and the regenerated NUTS_reinit lemma of Gen_C14.v states reinit_ok = true) *)
 Theorem C14_reinitialize_refuted :
   reinit_ok nuts_like = false /\
   (forall s a, ~ In a (f_init_w nuts_like) -> nuts_like_init s a = s a) /\
